@@ -54,6 +54,9 @@ class ImmutableListMixin:
     def append(self, item: t.Any) -> t.NoReturn:
         _immutable_error(self)
 
+    def clear(self) -> t.NoReturn:
+        _immutable_error(self)
+
     def remove(self, item: t.Any) -> t.NoReturn:
         _immutable_error(self)
 
